@@ -97,3 +97,10 @@ def run_cases(cases, rep, worker='text_worker', label=None, shape=None, vm_sampl
                           {'correspondence': 'extraction-vs-vm_compute', 'requests': [reqs[i] for i in mism[:3]]},
                           failing_input=False)
     return bad
+
+
+def c_comment(c, more):
+    def dec(v):
+        return {'lines': dss(v[0]), 'r1': ds(v[1]), 'lines_after': dss(v[0]), 'r2': ds(v[1]),
+                'lines_ext': dss(v[2]), 'r3': ds(v[3]), 'in_list': ds(v[4]), 'direct': dss(v[5])}
+    return ({'op': 'comment', 'c': c, 'more': more}, [108, content_sx(c), more], dec)
